@@ -17,7 +17,7 @@ func init() {
 	})
 	register(&Prop{
 		ID:    "C05",
-		Rules: []*Rule{rAssertOK, rBounds},
+		Rules: []*Rule{rAssertOK, rBounds, rNilField, rDecodeNonNil, rEnumTotal},
 		Explain: "Decides, for every site in /repo's hand-written source, structural necessary conditions of 'DecodeError and the decoded error's methods never panic': " +
 			"no unchecked type assertion on wire-controlled values (R-ASSERT-OK). " +
 			"NOT decided: panics inside dependencies (gogo/protobuf UnmarshalAny, grpc status), arbitrary fuzzed bytes, and panic classes other than failed type assertions, out-of-range indexing and nil dereference of decoder-built fields.",
